@@ -566,9 +566,9 @@ def run(ctx):
               "disjoint from the sub-pyramid, rejected ancestor of the apex" % (5 if thorough else 4))
     _flush(ctx, sink, reported)
 
-    n_random = 6000 if thorough else 260
+    n_random = 800 if thorough else 260
     max_depth = 6 if thorough else 5
-    budget = (330 if thorough else 22)
+    budget = (420 if thorough else 30)          # safety net only; the counts above fit well inside
     done = 0
     for i in range(n_random):
         if time.time() - t0 > budget:
@@ -619,8 +619,6 @@ def replay(obligation, witness):
             if p[0] > 0:
                 _algebra_one(Q.anc(p, p[0] - 1), sink, Pos, pos_children, pos_parent, is_subtile)
     elif obligation == "rt/closed_forms/value":
-        import random
-        check_algebra(0, 0, random.Random(0), 0, sink)
         from toasty.pyramid import depth2tiles, tiles_at_depth
         d = w["depth"]
         if depth2tiles(d) != Q.T(d) or tiles_at_depth(d) != (2 ** d) ** 2:
